@@ -3,6 +3,7 @@ import SeaQ.Model.Token
 import SeaQ.Model.Escape
 import SeaQ.Model.Literal
 import SeaQ.Model.Ident
+import Driver.Cond
 /-! Line-protocol driver: one request per line on stdin, one canonical result line on stdout. -/
 open SeaQ SeaQ.Util
 
@@ -12,7 +13,7 @@ def kindTag : Token.Kind → String
 def backendOf : String → Option Escape.Backend
   | "mysql" => some .mysql | "postgres" => some .postgres | "sqlite" => some .sqlite | _ => none
 
-def handle (line : String) : String :=
+def handleWords (line : String) : String :=
   match line.trimAscii.toString.splitOn " " with
   | ["tok", s, a] =>
     match decodeStr s, decodeStr a with
@@ -54,6 +55,12 @@ def handle (line : String) : String :=
     | some b, some cs => "ok " ++ encodeStr (Ident.prepare (Ident.quoteOf b) cs)
     | _, _ => "bad-op"
   | _ => "bad-op"
+
+/-- requests whose argument is an S-expression take the rest of the line -/
+def handle (line : String) : String :=
+  let l := line.trimAscii.toString
+  if l.startsWith "cond " then Driver.Cond.run (l.drop 5).toString
+  else handleWords l
 
 partial def loop (hin hout : IO.FS.Stream) : IO Unit := do
   let line ← hin.getLine
